@@ -54,7 +54,7 @@ PROPS = {
               "verdict: no panic, errors carry a code >= 4.00 or there is no response, the buffer and the body handed on never grow by more than 16 KiB + the request's payload; class by budget range; distinct = distinct input"),
         level_text=("Theorems for every request with ordered option maps, every budget (0 upward), cached state and application reply: C11_request_no_panic, C11_response_no_panic (the entry points return Ok or Err, never Panic: the size measurement cannot fail fatally, no division by zero, every block value encodes), "
                     "C11_block1_errors / C11_serve_errors (errors are 4.00/5.00-coded, or 'not handled' exactly when there is no response), C11_growth (buffer and delivered body bounded by previous length + 16384 + payload), C11_rejects_jump (a larger jump is an error and leaves the buffer unchanged)."),
-        level_note=COMMON_BLOCK_NOTE + " usize overflow of offsets is not modelled (num <= 65535 and size <= 2048 keep them below 2^27).",
+        level_note=COMMON_BLOCK_NOTE + " The model computes offsets on unbounded N; C11_offsets_bounded proves that every offset computed from a decoded block option is at most 2^27 (num <= 65535, size <= 2048), so no wrap-around can occur on a target with at least 32-bit usize.",
         modelled="src/block_handler/mod.rs (all of intercept_request / intercept_response), src/request.rs apply_from_error",
     ),
     "C12": dict(
@@ -84,7 +84,7 @@ PROPS = {
               "through attr() and attr_quoted(), each in a two-link document with an integer attribute, newline option on and off; random documents of 0..4 links x 0..4 attributes with targets/keys/values over structural characters, 3- and 4-byte code points, Unicode white space, values to length 40, "
               "attr_u32 / attr_u16 at boundaries; verdict: parsed targets, keys and unquoted values (both unquoting paths) equal the document given; class by document shape; non-trivial = document in the property's domain (target without '>', key free of separators); distinct = distinct input"),
         level_text=("Theorem C16_roundtrip: for every document in the domain, of any size, with or without newlines, parse_content (what the writer sends to a fault-free sink) = the links, keys and original value texts, in order -- proved by induction over links and attributes from scanner lemmas "
-                    "(a quoted, escaped value is walked over by both scanners whatever it contains; separators only occur outside quotes; trimming removes exactly the separators; the unquoting iterator inverts the escaping). C16_attr_auto_wf: attr() always picks a form the theorem covers."),
+                    "(a quoted, escaped value is walked over by both scanners whatever it contains; separators only occur outside quotes; trimming removes exactly the separators; the unquoting iterator inverts the escaping). C16_attr_auto_wf: attr() always picks a form the theorem covers. C16_integer_text / C16_integer_in_domain: the decimal text attr_u32 / attr_u16 write for every integer below 10^40 is a non-empty digit string without a leading zero that denotes the integer, and is inside the round-trip domain."),
         level_note=("Hand-written models of the writer and the three parsing iterators tied to the Rust by differential execution (dev and release; dev also exercises the writer's debug_assert on keys). core::fmt's one-write_str-per-write behaviour is an assumption checked by the fault-free runs of suite 180."),
         modelled="src/link_format.rs LinkFormatWrite, LinkAttributeWrite, LinkFormatParser, LinkAttributeParser, Unquote",
     ),
@@ -146,8 +146,8 @@ PROPS = {
               "(set twice, set after raw add); kinds 9-11 set_from_message and the readable view through coap-message 0.2 and 0.3 on random messages; verdict computed on the raw state only; class = kind; non-trivial = in domain; distinct = distinct input"),
         level_text=("Theorems for all packet states: C19_method / C19_status (getter after setter returns the value for all 8 / 28 variants, nothing else changes), C19_method_of_code / C19_status_of_code (what the getters read for each of the 256 code bytes), "
                     "C19_path (raw Uri-Path values = segments, get_path = the string minus one leading slash, get_path_as_vec = the segments, other options untouched) with the inductive lemma C19_path_join, C19_observe_flag / C19_observe_flag_raw, "
-                    "C19_content_format (set_content_format then get_content_format returns the format whatever was there before; raw option 12 = [minimal uint]), C19_copy (set_from_message into a fresh packet preserves code byte, flattened options in ascending order, payload)."),
-        level_note=("Hand-written models of the accessors and trait impls tied to the Rust by differential execution (dev and release). C19_path is stated for strings whose '/'-separated segments are valid UTF-8; that this is the same as the whole string being valid is tested (suite 190 kind 4), not proved. "
+                    "C19_content_format (set_content_format then get_content_format returns the format whatever was there before; raw option 12 = [minimal uint]), C19_copy (set_from_message into a fresh packet preserves code byte, flattened options in ascending order, payload), C19_valid_string_segments / C19_path_valid_string (every valid UTF-8 string has valid segments -- byte 47 never occurs inside a multi-byte sequence --, so the path round trip holds for EVERY valid string), C19_model_passes_oracle_part (kinds 0-3, 5, 11 of suite 190: the model satisfies the oracle on every input)."),
+        level_note=("Hand-written models of the accessors and trait impls tied to the Rust by differential execution (dev and release). "
                     "The option-flattening iterator of the trait impls is modelled as flatten; its loop is covered by the differential run only."),
         modelled="src/request.rs get/set_method, set_path, get_path, get_path_as_vec, get/set_observe_flag; src/response.rs get/set_status; src/packet.rs set/get_content_format; src/impl_coap_message.rs, src/impl_coap_message_0_3.rs (ReadableMessage, MinimalWritableMessage incl. provided set_from_message)",
     ),
@@ -170,7 +170,7 @@ PROPS = {
               "(add_option_as / set_options_as per width and for strings, set_observe_value, get_observe_value and get_content_format on raw states); verdict computed from be_min / be_value only; non-trivial = in the accessor's domain; class = kind; distinct = distinct input"),
         level_text=("Theorems for every value and width, no bound: C06_encode_minimal (the drain loop with its assert yields be_min v for v < 256^w), C06_min_value / C06_min_no_leading_zero / C06_min_length (be_min is the shortest big-endian form; zero is empty), "
                     "C06_decode (any string up to the width decodes to its big-endian value, longer ones are rejected; the 64-bit shift-and-add loses nothing and the final cast is exact), C06_roundtrip, C06_add_option_as and C06_observe_value "
-                    "(typed setters store exactly these encodings and touch nothing else; typed getters read them back). By induction on the value / the byte string."),
+                    "(typed setters store exactly these encodings and touch nothing else; typed getters read them back). By induction on the value / the byte string. C06_model_passes_oracle_codec: the codec entry points (kinds 0-2 of suite 60) satisfy the suite's oracle on every input."),
         level_note=("Hand-written models of option_value.rs and the typed accessors tied to the Rust by differential execution (~2*10^5 cases, dev and release). C06_string is true by definition of the UTF-8 validity model (Utf8.v, Unicode table 3-7); "
                     "that model is tied to String::from_utf8 by the differential run only."),
         modelled="src/option_value.rs (option_from_uint, option_to_uint, OptionValueU8/16/32/64, OptionValueString); src/packet.rs add_option_as, set_options_as, get_options_as, get_first_option_as, set/get_observe_value, get_content_format",
@@ -203,7 +203,7 @@ PROPS = {
                     "C01_roundtrip, C01_api_states_wf / C01_api_roundtrip (every sequence of public API calls, in any order, builds such a state and round-trips), C01_api_denotes_spec (that state denotes exactly the last-writer-wins reading of the call sequence: header fields by their last setter, options as the insertion-ordered multiset with set_option replacing and clear_option removing, stably sorted by number). "
                     "The 13/269/65535 thresholds are case splits closed by lia; the index-based decoder is connected through a proved refinement to a suffix parser."),
         level_note=("The Gallina models of to_bytes_internal/from_bytes/the option API are hand-written; faithfulness is checked each run by differential execution (dev and release builds; udp and no-default-features in the thorough tier). "
-                    "The last-writer-wins specification (spec_run) is both proved equal to the model (C01_api_denotes_spec) and evaluated by the run-time oracle against the implementation on every case."),
+                    "The last-writer-wins specification (spec_run) is both proved equal to the model (C01_api_denotes_spec) and evaluated by the run-time oracle against the implementation on every case; C01_model_passes_oracle proves that the model satisfies that oracle on every input the suite's reader produces."),
         modelled="src/packet.rs Packet::{new,set_token,add_option,set_option,clear_option,clear_all_options,to_bytes_internal,from_bytes}; src/header.rs bit-field setters, MessageClass<->u8",
     ),
     "C02": dict(
@@ -214,7 +214,7 @@ PROPS = {
               "generated well-formed messages, biased random strings, values of 65535..65804 bytes; non-trivial = all cases, class 1 must-accept / 2 either / 3 must-reject per the reference parser; distinct = distinct input"),
         level_text=("Theorem C02_decode_then_encode: for every byte string and every decoder policy, if from_bytes accepts then to_bytes_unlimited of the result succeeds and equals the input up to exactly the permitted "
                     "differences (trailing marker, content of a 0.00 message), stated as the boolean canonb which the run-time oracle also evaluates on implementation output; C02_injective as corollary. Unbounded: induction over the option list."),
-        level_note="Hand-written models of from_bytes / to_bytes_internal tied to the Rust by differential execution on ~4*10^5 strings per build (dev and release).",
+        level_note="Hand-written models of from_bytes / to_bytes_internal tied to the Rust by differential execution on ~4*10^5 strings per build (dev and release). C02_model_passes_oracle: the model satisfies the suite's oracle on every byte string and policy.",
         modelled="src/packet.rs Packet::from_bytes, to_bytes_internal; src/header.rs MessageClass<->u8",
     ),
     "C03": dict(
@@ -224,9 +224,9 @@ PROPS = {
               "non-trivial = all cases, classes 1/2/3 = must-accept / either / must-reject; distinct = distinct input"),
         level_text=("Theorem C03_matches_reference: for every byte string and policy the index-based decoder model (each buf[i], slice and typed addition a potential Panic) returns Ok with exactly the grammar's fields on "
                     "must-accept inputs, Err on must-reject inputs, and Ok-or-(strict-policy)-Err on the 'either' inputs; C03_total (never Panic) follows. The reference parser is itself proved to accept every wire image "
-                    "(C03_reference_accepts_wire_image, C03_accepts) and only wire images (C03_reference_accepts_only_wire_images)."),
-        level_note=("Hand-written decoder model tied to the Rust by differential execution (dev with overflow checks, release without) with panic capture; the reject classes of the property text are decided through the reference parser "
-                    "(proved sound and complete against wire_image), not stated one by one. Stack exhaustion / allocation failure are outside the model."),
+                    "(C03_reference_accepts_wire_image, C03_accepts) and only wire images (C03_reference_accepts_only_wire_images). The reject classes of the property text one by one, for every policy: C03_rejects_short, C03_rejects_token_length, C03_rejects_truncated_token, "
+                    "C03_rejects_bad_option (after ANY valid option prefix a header byte from which no option can be read) with C03_bad_option_classes (such a byte is exactly: nibble 15 in delta or length, truncated extended delta / length, option number above 65535, truncated value) and the six C03_class_* converses; C03_model_passes_oracle (the model satisfies the suite-30 oracle on every byte string and policy)."),
+        level_note=("Hand-written decoder model tied to the Rust by differential execution (dev with overflow checks, release without) with panic capture; Stack exhaustion / allocation failure are outside the model."),
         modelled="src/packet.rs Packet::from_bytes; src/header.rs HeaderRaw::try_from, get_token_length",
     ),
     "C04": dict(
@@ -238,7 +238,7 @@ PROPS = {
               "default entry point around MAX_SIZE (read from the build: 1280 / 64000 with udp) for every token length, 0.00 messages with unsent payloads, option values of 65803..131342 bytes, random messages x random limits; "
               "classes 1 fits / 2 exactly at limit / 3 one over / 4 further over / 5 unlimited / 6 over-long value; non-trivial = API-buildable state; distinct = distinct input"),
         level_text=("Theorem C04_limit_exact: for every well-formed state and every limit, to_bytes_internal returns the wire image iff wire_len <= limit and InvalidPacketLength otherwise; C04_length: the image has exactly wire_len bytes "
-                    "(4 + token + options + marker/payload when sent); C04_oversize_value_refused; C04_no_panic. Unbounded over messages and limits. "
+                    "(4 + token + options + marker/payload when sent); C04_oversize_value_refused; C04_no_panic; C04_model_passes_oracle (the model satisfies the suite-40 oracle for every packet state with an ordered option map -- values of any length --, entry point and limit). Unbounded over messages and limits. "
                     "Memory clause: C04_unsafe_sites_in_bounds -- the three unsafe blocks of to_bytes_internal are re-extracted from /repo/src/packet.rs on every run (tools/unsafe_sites.py -> coq/gen/UnsafeSites.v: reserve amount, ptr::copy offsets and lengths, set_len, as sums of length symbols) "
                     "and proved, for ALL lengths, to copy only inside the reserved capacity and the source and to expose only initialised bytes."),
         level_note=("Model tied by differential execution on default and udp builds, dev and release. The memory clause is proved about the index arithmetic as written in the source (the translator and Rust's documented Vec::reserve / set_len / ptr::copy contracts are trusted); "
